@@ -111,3 +111,29 @@ func VerifHarness_C20_Luminance() {
 		}
 	}
 }
+
+// VerifHarness_C20_Repeat: the generated matrix depends on the arguments of THIS call
+// only: the same primaries requested again with another white point (other chromaticity,
+// free luminances) give that white point's matrix, in both directions.
+func VerifHarness_C20_Repeat() {
+	r := ciexyy.Color{X: 0.64, Y: 0.33, YY: 1}
+	g := ciexyy.Color{X: 0.3, Y: 0.6, YY: 1}
+	b := ciexyy.Color{X: 0.15, Y: 0.06, YY: 1}
+	l1, l2 := verifF32(), verifF32()
+	verifAssume(verifAnd(verifAnd(l1 >= 0.25, l1 <= 4), verifAnd(l2 >= 0.25, l2 <= 4)))
+	whites := []ciexyy.Color{{X: 0.3127, Y: 0.329, YY: l1}, {X: 0.3457, Y: 0.3585, YY: l2}}
+	one := matrix.Vector3{1, 1, 1}
+	for _, w := range whites {
+		t := TransformToXYZForXYYPrimaries(r, g, b, w)
+		f := TransformFromXYZForXYYPrimaries(r, g, b, w)
+		white := ColorFromXYY(w).ToV()
+		tw := t.MulV(one)
+		// (tolerances: the primaries are constants here, folded with float rounding)
+		e0, e1, e2 := tw[0]-white[0], tw[1]-white[1], tw[2]-white[2]
+		verifAssert(verifAnd(verifAnd(e0 <= 1e-9, e0 >= -1e-9), verifAnd(verifAnd(e1 <= 1e-9, e1 >= -1e-9), verifAnd(e2 <= 1e-9, e2 >= -1e-9))), "repeated request: T*(1,1,1) is not the white point of this call")
+		back := f.MulV(white)
+		d0, d1, d2 := back[0]-1, back[1]-1, back[2]-1
+		verifAssert(verifAnd(verifAnd(d0 <= 1e-9, d0 >= -1e-9), verifAnd(verifAnd(d1 <= 1e-9, d1 >= -1e-9), verifAnd(d2 <= 1e-9, d2 >= -1e-9))), "repeated request: TransformFromXYZ does not map this call's white point to (1,1,1)")
+	}
+	verifReach("repeated")
+}
